@@ -75,6 +75,24 @@ def run(ctx):
             bad("objective is not zero at the parameters that generated the data", inp, float(np.abs(zero).max()))
         items.append((tb, days, prod, pf, tau, M, p0))
         outs.append(got)
+    # a long history (hourly gauge data over more than a year: > 10 000 retained rows): the objective is still the library's forward
+    # model on EVERY row
+    for nd in ((10400,) if ctx.quick else (10400, 26000)):
+        tau, M, p0 = float(rng.uniform(2000, 9000)), float(rng.uniform(1e3, 1e5)), float(rng.uniform(6000, 10000))
+        days = np.arange(nd, dtype=float)
+        pf = 0.55 * p0 + 0.3 * p0 * np.exp(-days / (nd / 3.0)) * (1 + 0.05 * np.sin(days / 37.0))
+        prod = np.cumsum(rng.uniform(0, 1, nd))
+        with warnings.catch_warnings():
+            warnings.simplefilter("ignore")
+            got = np.asarray(fpm._obj_function(params(tau, M, p0), days, prod, pvt, pf), float)
+            fp = FlowProperties(pvt, p0)
+            res = SinglePhaseReservoir(80, float(pf[0]), p0, fp)
+            res.simulate(days / tau, pressure_fracface=pf)
+            rf = np.asarray(res.recovery_factor(), float)
+        ev += 1
+        if got.shape != rf.shape or not np.allclose(got, M * rf - prod, rtol=1e-10, atol=1e-9 * M):
+            bad("fitting objective is not M x (library recovery factor for that pressure history) minus cumulative production (long history)", dict(tau=tau, M=M, p_initial=p0, days=nd),
+                dict(max_abs_diff_over_M=float(np.abs(got - (M * rf - prod)).max() / M) if got.shape == rf.shape else "shape"))
     # one process, several wells: identical (tau, p_initial, number of rows) but different frac-face histories and
     # tables, evaluated one after the other in both orders -- the objective must depend on its arguments only
     for k in range(3 if ctx.quick else 20):
